@@ -51,10 +51,27 @@ func parseModel(out string) map[string]string {
 		case ')':
 			depth--
 			if depth == 0 && start >= 0 {
-				pair := s[start+1 : k]
-				sp := strings.IndexAny(pair, " \n")
-				if sp > 0 {
-					m[strings.TrimSpace(pair[:sp])] = strings.TrimSpace(pair[sp+1:])
+				pair := strings.TrimSpace(s[start+1 : k])
+				sp := -1
+				if strings.HasPrefix(pair, "(") {
+					// the term is itself an s-expression: find its end
+					d := 0
+					for j, ch := range pair {
+						if ch == '(' {
+							d++
+						} else if ch == ')' {
+							d--
+							if d == 0 {
+								sp = j + 1
+								break
+							}
+						}
+					}
+				} else {
+					sp = strings.IndexAny(pair, " \n")
+				}
+				if sp > 0 && sp < len(pair) {
+					m[normWS(pair[:sp])] = strings.TrimSpace(pair[sp:])
 				}
 				start = -1
 			}
@@ -64,6 +81,11 @@ func parseModel(out string) map[string]string {
 		}
 	}
 	return m
+}
+
+// normWS collapses whitespace so that solver-printed terms compare equal to generated ones.
+func normWS(t string) string {
+	return strings.Join(strings.Fields(t), " ")
 }
 
 func smtValueToBig(v string) (*big.Int, bool) {
@@ -124,6 +146,103 @@ func goLiteral(v string, t types.Type, qual types.Qualifier) (string, bool) {
 	return "", false
 }
 
+// replayDumpHelper prints the observable leaves of a struct pointer (same naming as structResultTerms).
+const replayDumpHelper = `func gocvDump(prefix string, v reflect.Value, depth int) {
+	switch v.Kind() {
+	case reflect.Ptr:
+		if v.Type().Elem().Kind() != reflect.Struct || depth > 2 {
+			return
+		}
+		fmt.Printf("GOCV_RESULT %s.nil %v\n", prefix, v.IsNil())
+		if v.IsNil() {
+			return
+		}
+		e := v.Elem()
+		for i := 0; i < e.NumField(); i++ {
+			f := e.Field(i)
+			name := prefix + "." + e.Type().Field(i).Name
+			switch f.Kind() {
+			case reflect.Ptr:
+				gocvDump(name, f, depth+1)
+			case reflect.Slice:
+				fmt.Printf("GOCV_RESULT %s.len %d\n", name, f.Len())
+			case reflect.Bool:
+				fmt.Printf("GOCV_RESULT %s %v\n", name, f.Bool())
+			case reflect.Int, reflect.Int8, reflect.Int16, reflect.Int32, reflect.Int64:
+				fmt.Printf("GOCV_RESULT %s %d\n", name, f.Int())
+			case reflect.Uint, reflect.Uint8, reflect.Uint16, reflect.Uint32, reflect.Uint64, reflect.Uintptr:
+				fmt.Printf("GOCV_RESULT %s %d\n", name, f.Uint())
+			case reflect.Float32:
+				fmt.Printf("GOCV_RESULT %s %d\n", name, math.Float32bits(float32(f.Float())))
+			case reflect.Float64:
+				fmt.Printf("GOCV_RESULT %s %d\n", name, math.Float64bits(f.Float()))
+			}
+		}
+	}
+}
+
+`
+
+func structPtr(t types.Type) bool {
+	p, ok := t.Underlying().(*types.Pointer)
+	if !ok {
+		return false
+	}
+	_, ok = p.Elem().Underlying().(*types.Struct)
+	return ok
+}
+
+// sliceLiteral renders an integer-slice input from the model (length, then the reported leading elements).
+func sliceLiteral(ob *Obligation, model map[string]string, name string, sl *types.Slice, t types.Type, qual types.Qualifier) (string, string) {
+	lt, ok := ob.Inputs[name+".len"]
+	if !ok {
+		return "", "model has no length for " + name
+	}
+	lv, ok := model[lt.S]
+	if !ok {
+		if !lt.IsConst() {
+			return "", "model has no value for " + lt.S
+		}
+		lv = lt.S
+	}
+	n, ok := smtValueToBig(lv)
+	if !ok || !n.IsInt64() {
+		return "", "cannot render length " + lv
+	}
+	max := replaySliceElems(sl.Elem())
+	if n.Int64() > int64(max) {
+		return "", fmt.Sprintf("model input %s has %d elements; only inputs of up to %d elements are constructed", name, n.Int64(), max)
+	}
+	if bt, ok := ob.Inputs[name+".base"]; ok {
+		if bv, ok := model[bt.S]; ok && strings.TrimSpace(bv) == TNull.S && n.Int64() == 0 {
+			return types.TypeString(t, qual) + "(nil)", ""
+		}
+	}
+	var elems []string
+	for i := int64(0); i < n.Int64(); i++ {
+		et, ok := ob.Inputs[fmt.Sprintf("%s[%d]", name, i)]
+		if !ok {
+			return "", "model has no element term"
+		}
+		ev, ok := model[et.S]
+		if !ok {
+			if !et.IsConst() {
+				return "", "model has no value for " + et.S
+			}
+			ev = et.S
+		}
+		x, ok := smtValueToBig(ev)
+		if !ok {
+			return "", "cannot render " + ev
+		}
+		if w, signed, _ := intInfo(sl.Elem()); signed && x.Bit(w-1) == 1 {
+			x = new(big.Int).Sub(x, pow2(w))
+		}
+		elems = append(elems, x.String())
+	}
+	return types.TypeString(t, qual) + "{" + strings.Join(elems, ", ") + "}", ""
+}
+
 func scalarShape(t types.Type) bool {
 	b, ok := t.Underlying().(*types.Basic)
 	if !ok {
@@ -151,21 +270,36 @@ func tryReplay(w *World, o checkOpts, ob *Obligation) *ReplayResult {
 		return isaReplay(w, o, ob, ct)
 	}
 	fn := ct.Fn
-	if fn.Signature.Recv() != nil || fn.Parent() != nil {
-		return &ReplayResult{Reason: "input shape not constructible: method or closure receiver"}
-	}
-	for _, p := range fn.Params {
-		if !scalarShape(p.Type()) {
-			return &ReplayResult{Reason: "input shape not constructible: parameter " + p.Name() + " of type " + p.Type().String()}
-		}
+	if !replayPossible(fn) {
+		return &ReplayResult{Reason: "input shape not constructible: receiver, closure or a parameter that is neither a scalar nor an integer slice"}
 	}
 	res := fn.Signature.Results()
 	for i := 0; i < res.Len(); i++ {
-		if !scalarShape(res.At(i).Type()) {
+		if !scalarShape(res.At(i).Type()) && !structPtr(res.At(i).Type()) {
 			return &ReplayResult{Reason: "result shape not observable: " + res.At(i).Type().String()}
 		}
 	}
-	model := parseModel(ob.Model)
+	// prefer a model whose slice inputs are short enough to be constructed in full
+	var small []string
+	for _, p := range fn.Params {
+		if sl, ok := p.Type().Underlying().(*types.Slice); ok {
+			if lt, ok := ob.Inputs[p.Name()+".len"]; ok && isBV(lt.Sort) {
+				n := replaySliceElems(sl.Elem())
+				small = append(small, fmt.Sprintf("(assert (bvule %s %s))", lt.S, BVLitI(int64(n), bvWidth(lt.Sort)).S))
+				if ct, ok := ob.Inputs[p.Name()+".cap"]; ok {
+					small = append(small, fmt.Sprintf("(assert (= %s %s))", ct.S, lt.S))
+				}
+			}
+		}
+	}
+	modelText := ob.Model
+	if len(small) > 0 {
+		q := strings.Replace(ob.Query(true), "(check-sat)", strings.Join(small, "\n")+"\n(check-sat)", 1)
+		if v := decide(q, 20, false); v.Answer == "sat" {
+			modelText = v.Output
+		}
+	}
+	model := parseModel(modelText)
 	qual := func(p *types.Package) string {
 		if p == fn.Pkg.Pkg {
 			return ""
@@ -175,13 +309,26 @@ func tryReplay(w *World, o checkOpts, ob *Obligation) *ReplayResult {
 	rr := &ReplayResult{Inputs: map[string]string{}, Observed: map[string]string{}}
 	var args []string
 	for _, p := range fn.Params {
+		if sl, ok := p.Type().Underlying().(*types.Slice); ok {
+			lit, why := sliceLiteral(ob, model, p.Name(), sl, p.Type(), qual)
+			if lit == "" {
+				return &ReplayResult{Reason: why}
+			}
+			rr.Inputs[p.Name()] = lit
+			args = append(args, lit)
+			continue
+		}
 		term, ok := ob.Inputs[p.Name()]
 		if !ok {
 			return &ReplayResult{Reason: "model has no value for " + p.Name()}
 		}
 		val, ok := model[term.S]
 		if !ok {
-			return &ReplayResult{Reason: "model has no value for " + term.S}
+			if term.IsConst() {
+				val = term.S
+			} else {
+				return &ReplayResult{Reason: "model has no value for " + term.S}
+			}
 		}
 		lit, ok := goLiteral(val, p.Type(), qual)
 		if !ok {
@@ -191,7 +338,8 @@ func tryReplay(w *World, o checkOpts, ob *Obligation) *ReplayResult {
 		args = append(args, lit)
 	}
 	var sb strings.Builder
-	fmt.Fprintf(&sb, "package %s\n\nimport (\n\t\"fmt\"\n\t\"math\"\n\t\"testing\"\n)\n\nvar _ = math.Pi\n\n", fn.Pkg.Pkg.Name())
+	fmt.Fprintf(&sb, "package %s\n\nimport (\n\t\"fmt\"\n\t\"math\"\n\t\"reflect\"\n\t\"testing\"\n)\n\nvar _ = math.Pi\nvar _ = reflect.TypeOf\n\n", fn.Pkg.Pkg.Name())
+	sb.WriteString(replayDumpHelper)
 	fmt.Fprintf(&sb, "func TestGocvReplay(t *testing.T) {\n\tdefer func() {\n\t\tif r := recover(); r != nil {\n\t\t\tfmt.Printf(\"GOCV_PANIC %%v\\n\", r)\n\t\t}\n\t}()\n")
 	var lhs []string
 	for i := 0; i < res.Len(); i++ {
@@ -205,6 +353,10 @@ func tryReplay(w *World, o checkOpts, ob *Obligation) *ReplayResult {
 	}
 	for i := 0; i < res.Len(); i++ {
 		rt := res.At(i).Type()
+		if structPtr(rt) {
+			fmt.Fprintf(&sb, "\tgocvDump(\"%d\", reflect.ValueOf(r%d), 0)\n", i, i)
+			continue
+		}
 		b := rt.Underlying().(*types.Basic)
 		switch b.Kind() {
 		case types.Bool:
@@ -253,10 +405,8 @@ func tryReplay(w *World, o checkOpts, ob *Obligation) *ReplayResult {
 			pins = append(pins, fmt.Sprintf("(assert (= %s %s))", t.S, v))
 		}
 	}
-	for _, m := range regexp.MustCompile(`GOCV_RESULT (\d+) (\S+)`).FindAllStringSubmatch(out, -1) {
-		var idx int
-		fmt.Sscanf(m[1], "%d", &idx)
-		rt, ok := ob.Results[fmt.Sprintf("%d", idx)]
+	for _, m := range regexp.MustCompile(`GOCV_RESULT (\S+) (\S+)`).FindAllStringSubmatch(out, -1) {
+		rt, ok := ob.Results[m[1]]
 		if !ok {
 			continue
 		}
@@ -269,7 +419,16 @@ func tryReplay(w *World, o checkOpts, ob *Obligation) *ReplayResult {
 			n, _ := new(big.Int).SetString(m[2], 10)
 			lit = IntLit(n).S
 		default:
-			n, _ := new(big.Int).SetString(m[2], 10)
+			n, ok := new(big.Int).SetString(m[2], 10)
+			if !ok {
+				n = big.NewInt(0)
+				if m[2] == "true" {
+					n = big.NewInt(1)
+				}
+			}
+			if n.Sign() < 0 {
+				n = new(big.Int).Add(n, pow2(bvWidth(rt.Sort)))
+			}
 			lit = BVLit(n, bvWidth(rt.Sort)).S
 		}
 		pins = append(pins, fmt.Sprintf("(assert (= %s %s))", rt.S, lit))
